@@ -545,8 +545,8 @@ apply_prop (pixman_image_t *img, pixman_format_code_t fmt, int is_bits, int mop,
     case MOP_SET_CLIP32:
     {
 	pixman_region32_t r;
-	pixman_box32_t b[6];
-	int cnt = (int)sim_clamp (A (1), -1, 6), i, ok;
+	pixman_box32_t b[20];
+	int cnt = (int)sim_clamp (A (1), -1, 20), i, ok;
 	if (cnt < 0) return pixman_image_set_clip_region32 (img, NULL);
 	for (i = 0; i < cnt; i++)
 	{
@@ -568,8 +568,8 @@ apply_prop (pixman_image_t *img, pixman_format_code_t fmt, int is_bits, int mop,
     case MOP_SET_CLIP16:
     {
 	pixman_region16_t r;
-	pixman_box16_t b[6];
-	int cnt = (int)sim_clamp (A (1), -1, 6), i, ok;
+	pixman_box16_t b[20];
+	int cnt = (int)sim_clamp (A (1), -1, 20), i, ok;
 	if (cnt < 0) return pixman_image_set_clip_region (img, NULL);
 	for (i = 0; i < cnt; i++)
 	{
@@ -797,7 +797,9 @@ step_image_op (machine_t *m, const sim_op_t *op, const int64_t *a, int n, mstep_
 	if (!img_ok (m, slot)) return;
 	if (map >= 0)
 	{
-	    if (!img_ok (m, map) || m->img[map].kind != MOP_BITS) return;
+	    /* the user may name a map it no longer holds a reference to as long as this
+	     * very image keeps it alive (re-attaching the current map, e.g. to move its origin) */
+	    if (!(img_ok (m, map) || (m->img[map].used && m->img[map].img && s->has_alpha == map)) || m->img[map].kind != MOP_BITS) return;
 	    mi = m->img[map].img;
 	    /* the API's two refusal rules, on the model's CURRENT state */
 	    if (s->is_alpha_of > 0) refused = 1;
@@ -1224,11 +1226,11 @@ step_region_op (machine_t *m, const sim_op_t *op, const int64_t *a, int n, mstep
     {
     case MOP_R_INIT_RECTS:
     {
-	int dst = (int)sim_mod (A (1), M_NREG), cnt = (int)sim_clamp (A (2), 0, 12);
+	int dst = (int)sim_mod (A (1), M_NREG), cnt = (int)sim_clamp (A (2), 0, 20);
 	st->region_slot = dst;
 	if (w16)
 	{
-	    pixman_box16_t b[12];
+	    pixman_box16_t b[20];
 	    for (i = 0; i < cnt; i++)
 	    {
 		b[i].x1 = (int16_t)sim_clamp (A (3 + 4 * i), -32768, 32767); b[i].y1 = (int16_t)sim_clamp (A (4 + 4 * i), -32768, 32767);
@@ -1239,7 +1241,7 @@ step_region_op (machine_t *m, const sim_op_t *op, const int64_t *a, int n, mstep
 	}
 	else
 	{
-	    pixman_box32_t b[12];
+	    pixman_box32_t b[20];
 	    for (i = 0; i < cnt; i++)
 	    {
 		b[i].x1 = (int32_t)sim_clamp (A (3 + 4 * i), INT32_MIN, INT32_MAX); b[i].y1 = (int32_t)sim_clamp (A (4 + 4 * i), INT32_MIN, INT32_MAX);
